@@ -396,26 +396,21 @@ impl<'a> From<&'a OwnedTerm> for BorrowedTerm<'a> {
 
 impl<'a> Eq for BorrowedTerm<'a> {}
 
+impl<'a> BorrowedTerm<'a> {
+    /// Bytes and the number of used bits in the last byte, for binaries, strings and bit-strings.
+    fn bitstring_parts(&self) -> Option<(&[u8], u8)> {
+        match self {
+            BorrowedTerm::Binary(bytes) => Some((bytes.as_ref(), 8)),
+            BorrowedTerm::String(s) => Some((s.as_bytes(), 8)),
+            BorrowedTerm::BitBinary { bytes, bits } => Some((bytes.as_ref(), *bits)),
+            _ => None,
+        }
+    }
+}
+
 impl<'a> Ord for BorrowedTerm<'a> {
     fn cmp(&self, other: &Self) -> Ordering {
-        let type_order = |t: &BorrowedTerm| -> u8 {
-            match t {
-                BorrowedTerm::Integer(_) | BorrowedTerm::BigInt(_) | BorrowedTerm::Float(_) => 0,
-                BorrowedTerm::Atom(_) => 1,
-                BorrowedTerm::Reference(_) => 2,
-                BorrowedTerm::ExternalFun(_) | BorrowedTerm::InternalFun(_) => 3,
-                BorrowedTerm::Port(_) => 4,
-                BorrowedTerm::Pid(_) => 5,
-                BorrowedTerm::Tuple(_) => 6,
-                BorrowedTerm::Map(_) => 7,
-                BorrowedTerm::Nil | BorrowedTerm::List(_) | BorrowedTerm::ImproperList { .. } => 8,
-                BorrowedTerm::Binary(_)
-                | BorrowedTerm::BitBinary { .. }
-                | BorrowedTerm::String(_) => 9,
-            }
-        };
-
-        match type_order(self).cmp(&type_order(other)) {
+        match borrowed_type_order(self).cmp(&borrowed_type_order(other)) {
             Ordering::Equal => match (self, other) {
                 (BorrowedTerm::Integer(a), BorrowedTerm::Integer(b)) => a.cmp(b),
                 (BorrowedTerm::Integer(a), BorrowedTerm::BigInt(b)) => compare_int_bigint(*a, b),
@@ -500,47 +495,6 @@ impl<'a> Ord for BorrowedTerm<'a> {
                     })
                 }
                 (BorrowedTerm::Nil, BorrowedTerm::Nil) => Ordering::Equal,
-                (BorrowedTerm::List(a), BorrowedTerm::List(b)) => {
-                    for (x, y) in a.iter().zip(b.iter()) {
-                        match x.cmp(y) {
-                            Ordering::Equal => continue,
-                            other => return other,
-                        }
-                    }
-                    a.len().cmp(&b.len())
-                }
-                (BorrowedTerm::List(a), BorrowedTerm::Nil) => {
-                    if a.is_empty() {
-                        Ordering::Equal
-                    } else {
-                        Ordering::Greater
-                    }
-                }
-                (BorrowedTerm::Nil, BorrowedTerm::List(b)) => {
-                    if b.is_empty() {
-                        Ordering::Equal
-                    } else {
-                        Ordering::Less
-                    }
-                }
-                (
-                    BorrowedTerm::ImproperList {
-                        elements: a,
-                        tail: ta,
-                    },
-                    BorrowedTerm::ImproperList {
-                        elements: b,
-                        tail: tb,
-                    },
-                ) => {
-                    for (x, y) in a.iter().zip(b.iter()) {
-                        match x.cmp(y) {
-                            Ordering::Equal => continue,
-                            other => return other,
-                        }
-                    }
-                    a.len().cmp(&b.len()).then_with(|| ta.cmp(tb))
-                }
                 (BorrowedTerm::Binary(a), BorrowedTerm::Binary(b)) => a.cmp(b),
                 (BorrowedTerm::String(a), BorrowedTerm::String(b)) => a.cmp(b),
                 (BorrowedTerm::Binary(a), BorrowedTerm::String(b)) => a.as_ref().cmp(b.as_bytes()),
@@ -555,7 +509,13 @@ impl<'a> Ord for BorrowedTerm<'a> {
                         bits: bbits,
                     },
                 ) => a.cmp(b).then_with(|| abits.cmp(bbits)),
-                _ => Ordering::Equal,
+                _ => match (self.bitstring_parts(), other.bitstring_parts()) {
+                    // For bit-strings whose unused trailing bits are zero this is the bit-wise order.
+                    (Some((a, abits)), Some((b, bbits))) => {
+                        a.cmp(b).then_with(|| abits.cmp(&bbits))
+                    }
+                    _ => compare_list_terms(self, other),
+                },
             },
             other => other,
         }
@@ -590,6 +550,100 @@ impl<'a> Index<&BorrowedTerm<'a>> for BorrowedTerm<'a> {
         match self {
             BorrowedTerm::Map(m) => m.get(key).unwrap_or_else(|| panic!("key not found in map")),
             _ => panic!("cannot index {} with a key", self.type_name()),
+        }
+    }
+}
+
+const fn borrowed_type_order(t: &BorrowedTerm<'_>) -> u8 {
+    match t {
+        BorrowedTerm::Integer(_) | BorrowedTerm::BigInt(_) | BorrowedTerm::Float(_) => 0,
+        BorrowedTerm::Atom(_) => 1,
+        BorrowedTerm::Reference(_) => 2,
+        BorrowedTerm::ExternalFun(_) | BorrowedTerm::InternalFun(_) => 3,
+        BorrowedTerm::Port(_) => 4,
+        BorrowedTerm::Pid(_) => 5,
+        BorrowedTerm::Tuple(_) => 6,
+        BorrowedTerm::Map(_) => 7,
+        BorrowedTerm::Nil | BorrowedTerm::List(_) | BorrowedTerm::ImproperList { .. } => 8,
+        BorrowedTerm::Binary(_) | BorrowedTerm::BitBinary { .. } | BorrowedTerm::String(_) => 9,
+    }
+}
+
+/// Walks the cons cells of a list term. A tail that is itself a list is followed, so every
+/// representation of the same Erlang list yields the same elements and the same final tail.
+struct ListCells<'t, 'a> {
+    elements: &'t [BorrowedTerm<'a>],
+    /// `None` stands for nil
+    tail: Option<&'t BorrowedTerm<'a>>,
+}
+
+impl<'t, 'a> ListCells<'t, 'a> {
+    fn new(term: &'t BorrowedTerm<'a>) -> Self {
+        ListCells {
+            elements: &[],
+            tail: Some(term),
+        }
+    }
+
+    /// The next element, or `None` once only the final (non-list) tail is left in `self.tail`.
+    fn next(&mut self) -> Option<&'t BorrowedTerm<'a>> {
+        loop {
+            if let Some((first, rest)) = self.elements.split_first() {
+                self.elements = rest;
+                return Some(first);
+            }
+            match self.tail {
+                Some(BorrowedTerm::List(elements)) => {
+                    self.elements = elements;
+                    self.tail = None;
+                }
+                Some(BorrowedTerm::ImproperList { elements, tail }) => {
+                    self.elements = elements;
+                    self.tail = Some(tail);
+                }
+                Some(BorrowedTerm::Nil) => {
+                    self.tail = None;
+                    return None;
+                }
+                _ => return None,
+            }
+        }
+    }
+}
+
+const LIST_TYPE_ORDER: u8 = 8;
+
+/// Compares nil, proper and improper lists as chains of cons cells: element by element,
+/// and when one side runs out its tail is compared with what remains of the other.
+fn compare_list_terms<'a>(a: &BorrowedTerm<'a>, b: &BorrowedTerm<'a>) -> Ordering {
+    let (mut cells_a, mut cells_b) = (ListCells::new(a), ListCells::new(b));
+    loop {
+        match (cells_a.next(), cells_b.next()) {
+            (Some(x), Some(y)) => match x.cmp(y) {
+                Ordering::Equal => continue,
+                other => return other,
+            },
+            (None, None) => {
+                return match (cells_a.tail, cells_b.tail) {
+                    (None, None) => Ordering::Equal,
+                    (None, Some(tail)) => LIST_TYPE_ORDER.cmp(&borrowed_type_order(tail)),
+                    (Some(tail), None) => borrowed_type_order(tail).cmp(&LIST_TYPE_ORDER),
+                    (Some(x), Some(y)) => x.cmp(y),
+                };
+            }
+            // nil sorts before a non-empty list; any other tail by its type
+            (None, Some(_)) => {
+                return match cells_a.tail {
+                    None => Ordering::Less,
+                    Some(tail) => borrowed_type_order(tail).cmp(&LIST_TYPE_ORDER),
+                };
+            }
+            (Some(_), None) => {
+                return match cells_b.tail {
+                    None => Ordering::Greater,
+                    Some(tail) => LIST_TYPE_ORDER.cmp(&borrowed_type_order(tail)),
+                };
+            }
         }
     }
 }
